@@ -23,7 +23,11 @@ NCPU = int(os.environ.get('VERIF_JOBS', str(min(8, os.cpu_count() or 4))))
 # CBMC's symbolic execution propagates constants through heap buffers (Vec/VecDeque/Rc allocations are byte arrays)
 # only when the array is split into per-element symbols; the default limit of 64 bytes leaves every heap read
 # symbolic even for concrete inputs.  DESIGN.md section 10.8.
-DEFAULT_FS = os.environ.get('VERIF_FS', '')
+DEFAULT_FS = os.environ.get('VERIF_FS', '512')
+# Kani's assertion-reachability checks make CBMC emit a full counterexample trace (megabytes of JSON each) for every
+# reachable check: ~50 s of pure output per harness.  They only serve the UNREACHABLE annotation; vacuity is guarded
+# by kani::cover! witnesses instead.  VERIF_REACH=1 turns them back on.
+REACH = [] if os.environ.get('VERIF_REACH') == '1' else ['--no-assertion-reach-checks']
 # Runs against another tree (seeded changes, pre-fix trees) never touch /verif/evidence, /verif/replays or the
 # log directory of the registered checks: everything goes under logs/alt-<tag>/.
 ALT = os.environ.get('VERIF_TAG') or (None if REPO == '/repo' else re.sub(r'[^A-Za-z0-9]+', '_', REPO).strip('_'))
@@ -67,6 +71,7 @@ class Harness:
         self.canary = False
         self.ignore = None
         self.unwindset = None
+        self.also_quick = []  # properties (besides the primary one) whose quick tier runs this obligation
         self.cbmc = ''       # extra CBMC arguments ('+' separated), e.g. --max-field-sensitivity-array-size+512
         self.expect = 'pass'
 
@@ -149,6 +154,8 @@ def _set(h, k, v):
         h.args = v.replace('+', ' ')
     elif k == 'cbmc':
         h.cbmc = v.replace('+', ' ')
+    elif k == 'also_quick':
+        h.also_quick = v.split(',')
     else:
         setattr(h, k, v)
 
@@ -262,15 +269,13 @@ def kani_group(scratch, hs, jobs, logdir, tag):
     if os.path.exists(out_json):
         os.remove(out_json)
     tmax = max(h.timeout for h in hs)
-    cmd = ['cargo', 'kani', '-Z', 'stubbing', '-Z', 'unstable-options', '--exact',
+    cmd = ['cargo', 'kani', '-Z', 'stubbing', '-Z', 'unstable-options', '--exact'] + REACH + [
            '--output-format', 'terse', '--export-json', out_json,
            '--harness-timeout', '%ds' % tmax, '-j', str(max(1, min(jobs, len(hs))))]
     for h in hs:
         cmd += ['--harness', h.full]
     extra = hs[0].args.split()
-    cb = hs[0].cbmc.split()
-    if '--max-field-sensitivity-array-size' not in cb and DEFAULT_FS:
-        cb = ['--max-field-sensitivity-array-size', DEFAULT_FS] + cb
+    cb = effective_cbmc(hs[0]).split()
     if hs[0].unwindset:
         ids = resolve_unwindset(scratch, hs, logdir, tag)
         cb = cb + ['--unwindset', ','.join(ids)]
@@ -318,6 +323,13 @@ def kani_group(scratch, hs, jobs, logdir, tag):
     res['kani_version'] = data.get('metadata', {}).get('kani_version')
     res['cbmc_version'] = data.get('tools', {}).get('cbmc')
     return res
+
+
+def effective_cbmc(h):
+    cb = h.cbmc.split()
+    if '--max-field-sensitivity-array-size' not in cb and DEFAULT_FS and DEFAULT_FS != '64':
+        cb = ['--max-field-sensitivity-array-size', DEFAULT_FS] + cb
+    return ' '.join(cb)
 
 
 def attributed(c, prop):
@@ -525,7 +537,7 @@ def select(harnesses, prop, tier, only=None):
         if tier == 'quick' and not only:
             # quick tier: the cheap obligations whose PRIMARY property (first in the list) this is;
             # the thorough tier runs every obligation that lists the property
-            if h.tier != 'quick' or (prop != 'ALL' and h.props[0] != prop):
+            if h.tier != 'quick' or (prop != 'ALL' and h.props[0] != prop and prop not in h.also_quick):
                 continue
         sel.append(h)
     return sel
@@ -556,7 +568,7 @@ def run_check(prop, tier, seed, only=None, write_evidence=True):
         scratch.create(files)
         groups = {}
         for h in sel:
-            groups.setdefault((h.group, h.args, (h.unwindset or '') + '|' + h.cbmc), []).append(h)
+            groups.setdefault((h.group, h.args, (h.unwindset or '') + '|' + effective_cbmc(h)), []).append(h)
         first = True
         for gi, ((gname, gargs, _uw), hs) in enumerate(sorted(groups.items())):
             tag = '%d-%s' % (gi, re.sub(r'[^A-Za-z0-9]+', '_', gname))
